@@ -475,6 +475,11 @@ def lru_cache_with_expiry(
         )
 
     cache: OrderedDict[Tuple[Any, ...], Tuple[float, Any]] = OrderedDict()
+    # The bookkeeping below is several dictionary operations that belong together; a concurrent
+    # caller between two of them would make them raise (KeyError, "mutated during iteration").
+    # As in functools.lru_cache the lock is held for the bookkeeping only, never while the
+    # wrapped function runs, and it is re-entrant.
+    lock = threading.RLock()
 
     @wraps(func)
     def wrapper(*args, **kwargs):
@@ -482,26 +487,31 @@ def lru_cache_with_expiry(
         current_time = time.time()
         key = (args, frozenset(kwargs.items()))
 
-        # Remove expired items
-        expired_keys = [
-            k for k, (timestamp, _) in cache.items() if current_time - timestamp > valid_for_seconds
-        ]
-        for k in expired_keys:
-            del cache[k]
+        with lock:
+            # Remove expired items
+            expired_keys = [
+                k
+                for k, (timestamp, _) in cache.items()
+                if current_time - timestamp > valid_for_seconds
+            ]
+            for k in expired_keys:
+                del cache[k]
 
-        # Check if result is cached
-        if key in cache:
-            # Move the accessed item to the end to maintain LRU order
-            cache.move_to_end(key)
-            return cache[key][1]
+            # Check if result is cached
+            if key in cache:
+                # Move the accessed item to the end to maintain LRU order
+                cache.move_to_end(key)
+                return cache[key][1]
 
         # Call the function and cache the result
         result = func(*args, **kwargs)
-        cache[key] = (current_time, result)
 
-        # Maintain the cache size
-        if len(cache) > max_size:
-            cache.popitem(last=False)  # Remove the first (least recently used) item
+        with lock:
+            cache[key] = (current_time, result)
+
+            # Maintain the cache size
+            if len(cache) > max_size:
+                cache.popitem(last=False)  # Remove the first (least recently used) item
 
         return result
 
